@@ -36,7 +36,7 @@ add("C06", "model_checking", "explicit-state exploration of all integrate-call h
 add("C07", "model_checking", "exhaustive enumeration of all compositions (split histories) of an n-step run executed as chains of real integrate calls, compared with the one-shot run and a manual stepper",
     "Every composition of n=4 (5) steps into parts, for every model x scheme x backend and three checkpoint variants per segment, is executed through "
     "return_states/all_states on the real integrate; recordings and returned states are compared with the one-shot run and with init_fn/step_fn stepping.",
-    "1e-10 tolerance (observed agreement is bit-for-bit); runs of 4-5 steps with data-fed stimulus and clamp; F6 (prod(checkpoint_lengths) > steps) is a listed known finding.",
+    "1e-8 tolerance (round-off differences between differently compiled scans are amplified through spikes at non-default dt); runs of 4-5 steps with data-fed stimulus and clamp; F6 (prod(checkpoint_lengths) > steps) was repaired in /repo (fix 3d41102).",
     "DESIGN.md §7 C07")
 
 add("C08", "model_checking", "explicit-state exploration of all record/stimulate/clamp request histories up to depth 2-3 on a real network, integrate output compared with a reference built from the request log",
